@@ -225,7 +225,7 @@ end ASV.Rulesets
 namespace ASV.Rulesets
 open ASV ASV.Parser
 
-/-- `Ruleset.from_files` (repaired, D60): the rules are scaled by the multipliers exactly once -/
+/-- `Ruleset.from_files` (repaired, D201): the rules are scaled by the multipliers exactly once -/
 theorem fromFiles_read (rules : List Rule) (m : Mul) (h : Heap) :
     (fromFiles rules m h).1.read (fromFiles rules m h).2 = wanted rules [] [] m := by
   unfold fromFiles RS.read wanted
